@@ -210,3 +210,27 @@ PROPS["C06"] = dict(
         technique="property-based robustness testing (rapid) with corruption pass + native go fuzzing, watchdog oracle",
     ),
 )
+
+PROPS["C01"] = dict(
+    pkg="c01",
+    level="exploration",
+    rule=("(Items) ActivityStreams documents whose every string is drawn from a hostile source (raw C0/DEL/C1, ESC/CSI/OSC attack "
+          "strings, numeric/hex/named character references for the same, invalid UTF-8) in all fields, attribute values, code spans, "
+          "link destinations and media types; built with pub.New and everything reachable rendered with Name/String/Preview at widths "
+          "-5..200; (Render) hostile bodies in the four media types rendered directly. Oracle: an independent recogniser accepting only "
+          "printable runes, newlines and SGR sequences from servitor's own closed set with the configured colours. Non-trivial: the "
+          "document carries at least one hostile token that survives JSON-level sanitising (character reference, attribute, markdown). "
+          "Distinct = distinct (document, widths)."),
+    units=[
+        rapid("Items", "TestItems", 12000, 400000),
+        rapid("Render", "TestRender", 20000, 800000),
+        fuzz("Fuzz", "FuzzRender", "180s"),
+    ],
+    manifest=dict(
+        text=("Property-based testing with a terminal-cleanliness recogniser over every string the object layer and the four "
+              "renderers produce for hostile documents; thorough adds coverage-guided fuzzing of raw bodies. Sampled."),
+        design_ref="DESIGN.md §3 C01",
+        note="Trusted: the recogniser in harness/vorc/term.go (written from the statement, shares nothing with ansi.Scrub).",
+        technique="property-based testing (rapid) + native go fuzzing against a terminal-cleanliness recogniser",
+    ),
+)
